@@ -1304,4 +1304,129 @@ theorem iterBinsWithEdges_11_12 {ε : Type} (bins : NArr Rat) (e : C12.Edges) (l
         subst hv
         simp [bind, Except.bind, pure, Except.pure]
 
+/-! ## 8. Non-vacuity: concrete instances of the hypotheses (tests, not theorems) -/
+section Examples
+open Lena.C06 (midGuess midGuess_ok exArr exArr_inc exEdges exEdges_valid)
+
+/-- edges and a state used below: `histogram([0, 1, 3], bins=[2, 2])` -/
+def exEs : List Int := [0, 1, 3]
+theorem exEs_inc : C06.StrictInc exEs := by unfold C06.StrictInc exEs; decide
+
+-- section 1: the search over `Rat` takes the same path as over `Int` (the C06 example 45 ↦ bin 2)
+example : C06.bin1d midGuess (iq 45) (exArr.map iq) = .ok 2 := by
+  rw [bin1d_natural intCast_ordEmb, C06.bin1d_spec midGuess _ (midGuess_ok.at _ _) exArr_inc (by decide)]; rfl
+example : C06.getBinOnValue (fun _ => midGuess) (mapCoord iq (.tuple [3, 1])) (mapEdges iq exEdges)
+    = C06.getBinOnValue (fun _ => midGuess) (.tuple [3, 1]) exEdges :=
+  getBinOnValue_natural intCast_ordEmb _ _ _
+
+-- section 2: the hypotheses of `bin1d_09_06`, `fill_09_06`, `histogramFill_09_06` hold; the closed form computes
+example : C06.bin1d midGuess 45 exArr = .ok (C09.binIndex exArr 45) ∧ C09.binIndex exArr 45 = 2 :=
+  ⟨bin1d_09_06 midGuess exArr 45 (midGuess_ok.at _ _) exArr_inc (by decide), by decide⟩
+example : C06.bin1d (C06.interpGuess exArr 100) 100 exArr = .ok 5 :=
+  bin1d_interp_09_06 exArr 100 exArr_inc (by decide)
+example : C06.fill (fun _ => midGuess) (hist09to06 exEs ⟨[2, 2], 0⟩) (.scalar 2) 1
+    = .ok (hist09to06 exEs ⟨[2, 3], 0⟩) :=
+  fill_09_06 (fun _ => midGuess) exEs ⟨[2, 2], 0⟩ 2 (midGuess_ok.at _ _) exEs_inc (by decide)
+example : C06.fill (fun _ => midGuess) (hist09to06 exEs ⟨[2, 2], 0⟩) (.scalar 3) 1
+    = .ok (hist09to06 exEs ⟨[2, 2], 1⟩) :=
+  fill_09_06 (fun _ => midGuess) exEs ⟨[2, 2], 0⟩ 3 (midGuess_ok.at _ _) exEs_inc (by decide)
+-- a state whose bins do not match the edges (one bin for three edges): still the same on both sides
+example : C06.fill (fun _ => midGuess) (hist09to06 exEs ⟨[7], 0⟩) (.scalar 2) 1 = .ok (hist09to06 exEs ⟨[7], 1⟩) :=
+  fill_09_06 (fun _ => midGuess) exEs ⟨[7], 0⟩ 2 (midGuess_ok.at _ _) exEs_inc (by decide)
+-- construction: success and both failures
+example : C06.mkHist (.flat exEs) none (2 : Int) = .ok (hist09to06 exEs ⟨[2, 2], 0⟩) := mkHist_09_06 exEs none 2
+example : C06.mkHist (.flat [0, 1, 1]) (none : Option (NArr Int)) (0 : Int) = .error .lenaValueError :=
+  mkHist_09_06 [0, 1, 1] none 0
+example : C06.mkHist (.flat exEs) (some (liftBins [1])) (0 : Int) = .error .lenaValueError :=
+  mkHist_09_06 exEs (some [1]) 0
+
+/-- a constructed C09 element (the hypothesis `hnew` of the transfer theorems) -/
+def exCfg : C09.HistCfg := ⟨exEs, none, none, 2⟩
+theorem exCfg_new : C09.Histogram.new exCfg = .ok ⟨⟨[2, 2], 0⟩, []⟩ := by rfl
+
+example : ∃ e0 e, C06.HistEl.new ([] : C09.Ctx) (.flat exEs) none (2 : Int) = .ok e0 ∧
+    C06.HistEl.fillAll ([] : C09.Ctx) 1 e0 (flow09to06 (fun _ => midGuess) [⟨2, none⟩, ⟨5, none⟩, ⟨0, none⟩]) = .ok e ∧
+    e.hist.nOut = 1 := by
+  obtain ⟨e0, e, h1, h2, _, h4, _⟩ :=
+    c06_element_counts (fun _ => midGuess) (fun _ => midGuess_ok) exCfg _ exCfg_new [⟨2, none⟩, ⟨5, none⟩, ⟨0, none⟩]
+  exact ⟨e0, e, h1, h2, by rw [h4]; decide⟩
+
+example : C12.getNevents (hist09to12 exEs ((C09.histogramM exCfg ⟨⟨[2, 2], 0⟩, []⟩).fillAll ⟨⟨[2, 2], 0⟩, []⟩
+    [⟨2, none⟩, ⟨5, none⟩])).hist true = 6 := by
+  rw [c12_nevents_of_c09_flow exCfg _ exCfg_new]; decide
+
+-- section 5: the two transcriptions of the element inside C09 agree on this configuration
+example : C09.HistogramNd.new (cfg1dToNd exCfg) = .ok (st1dToNd exEs ⟨⟨[2, 2], 0⟩, []⟩) := by
+  rw [histogramNd_new, exCfg_new]
+example : C09.HistogramNd.new (cfg1dToNd ⟨exEs, some [1, 1], some [1, 1], 0⟩) = .error .typeError := by
+  rw [histogramNd_new]; rfl
+
+-- section 3: C12 ↔ C06
+/-- valid flat edges over `Rat` -/
+theorem exQ_valid : C06.ValidEdges (edges12to06 (.flat [0, 1, 3])) := by
+  refine ⟨by simp [edges12to06, C06.Edges.axes], ?_⟩
+  intro arr h
+  simp only [edges12to06, C06.Edges.axes, List.mem_cons, List.not_mem_nil, or_false] at h
+  subst h
+  exact ⟨by decide, by unfold C06.StrictInc; decide⟩
+
+example : C12.mkHist (.nested [[0, 1, 3], [0, 2]]) none 0
+    = mapOk hist06to12 (C06.mkHist (.nested [[0, 1, 3], [0, 2]]) none 0) :=
+  mkHist_12_06 _ (by intro ax h; cases h) none 0
+example : C12.mkHist (.nested [[0, 1, 3]]) none 0 = .error .unmodelled := by
+  rw [mkHist_12_nested1]; decide
+
+example : ∃ h₀ h, C12.mkHist (.flat [0, 1, 3]) none 0 = .ok h₀ ∧
+    C06.fillAll (hist12to06 h₀) [(fun _ => midGuess, .scalar 2, 5), (fun _ => midGuess, .scalar 7, (1 : Rat) / 2)] = .ok h ∧
+    C12.getNevents (hist06to12 h) true = 5 + 1 / 2 := by
+  obtain ⟨h₀, h, h1, h2, _, _, h5⟩ := c12_nevents_after_fills (.flat [0, 1, 3]) exQ_valid (by intro ax h; cases h)
+    [(fun _ => midGuess, .scalar 2, 5), (fun _ => midGuess, .scalar 7, (1 : Rat) / 2)]
+    (by
+      intro op hm
+      simp only [List.mem_cons, List.not_mem_nil, or_false] at hm
+      rcases hm with rfl | rfl <;> exact ⟨fun _ => midGuess_ok, _, C06.Proper.flat _ _⟩)
+  refine ⟨h₀, h, h1, h2, ?_⟩
+  rw [h5]; simp [C06.sumW]; grind
+
+/-- a well-formed C06 state over `Rat` -/
+def exQ : C06.Hist Rat Rat := { edges := .flat [0, 1, 3], bins := .node [.leaf 1, .leaf 2], nOut := 1, dim := 1 }
+theorem exQ_wf : C06.WF exQ := ⟨exQ_valid, by simp [exQ, C06.dimsOf, C06.Edges.axes, NArr.HasShape]⟩
+example : ∃ c, C12.add (hist06to12 exQ) (hist06to12 exQ) (1 / 2) ⟨1 / 1000000000, 0⟩ = .ok c ∧
+    C06.total c.bins + c.nOut = (C06.total exQ.bins + exQ.nOut) + (C06.total exQ.bins + exQ.nOut) * (1 / 2) := by
+  obtain ⟨c, h1, _, h3⟩ := c06_add_defined_and_conserves exQ_wf exQ_wf rfl (by intro ax h; cases h) (1 / 2)
+    ⟨1 / 1000000000, 0⟩ (by decide)
+  exact ⟨c, h1, h3⟩
+
+-- section 6: C11 ↔ C06
+example : C06.fillWalk (5 : Int) (NArr.full [3, 2] 0) [2, 1]
+    = .ok (some (.node [.node [.leaf 0, .leaf 0], .node [.leaf 0, .leaf 0], .node [.leaf 0, .leaf 5]])) :=
+  fillWalk_11_06 (ε := Unit) 5 [2, 1] _ _ (by simp) (by rfl)
+example : (C11.mkHistogram exEdges (.node [.leaf 0, .leaf 0, .leaf 0]) : Except (C11.Exc Unit) (C11.Hist Int Int))
+    = .ok ⟨exEdges, .node [.leaf 0, .leaf 0, .leaf 0]⟩ := by
+  rw [mkHistogram_11_06 (init := (0 : Int)), C06.mkHist_bins exEdges_valid]; rfl
+
+/-- an analysis that counts -/
+def exCount : C11.Analysis Int (List Int) Int Unit where
+  fill c _ := .ok (c + 1)
+  compute c := ⟨[c], none⟩
+
+example : ∃ s' h', C11.SIB.fill [] exCount C11.exAv C11.exG ⟨exEdges, NArr.full [3, 2] 0, []⟩ (.bare [3, 1]) = .ok s' ∧
+    C06.fill C11.exG { edges := exEdges, bins := NArr.full [3, 2] 0, nOut := 0, dim := 2 } (.tuple [3, 1]) 1 = .ok h' ∧
+    h'.bins = s'.bins := by
+  obtain ⟨c, _, _, hok⟩ := (C11.fill_one [] exCount C11.exAv C11.exG (s := ⟨exEdges, NArr.full [3, 2] 0, []⟩)
+    exEdges_valid (C06.hasShape_full _ _) (.bare [3, 1])).2.2 [2, 1] C11.ex_route_in
+  have hs := hok (c + 1) rfl
+  obtain ⟨h', hf, hb, _, _⟩ := sibFill_11_06 [] exCount C11.exAv C11.exG _ _ (.bare [3, 1]) 1 (.tuple [3, 1])
+    (fun _ => rfl) rfl exEdges_valid hs 0 2
+  exact ⟨_, h', hs, hf, hb⟩
+
+-- section 7: C11 ↔ C12
+example : (C11.cellEdges [[0, 1, 3], [0, 2]] [1, 0] : Except (C11.Exc Unit) (List (Rat × Rat))) = .ok [(1, 3), (0, 2)] := by
+  rw [cellEdges_11_12]; rfl
+example : C12.iterBinsWithEdges (.node [.leaf 1, .leaf 2]) (.flat [0, 1, 3])
+    = .ok [(.leaf 1, [(0, 1)]), (.leaf 2, [(1, 3)])] :=
+  iterBinsWithEdges_11_12 (ε := Unit) _ _ [(1, [(0, 1)]), (2, [(1, 3)])] (by rfl)
+
+end Examples
+
 end Lena.Bridge.Hist
